@@ -4,14 +4,15 @@ from __future__ import annotations
 import json
 import re
 from collections import Counter
+from fractions import Fraction
 
 from harness import common as C
 from harness import fw
 
 META = {
     "id": "C14",
-    "technique": "Coq proof (structural induction over the nested IR skeleton: deep walk of _collect_required_libraries vs. the emitter's top-level scans) + extracted-model correspondence with the real parse/_collect_required_libraries/emit on exhaustively enumerated device multiplicities and positions + property oracle on lib list / #include lines / global object definitions / g++ link against the mock library headers",
-    "level_text": "Theorems C14_* (coq/Props/C14.v) hold for all programs of a Gallina model (coq/Tool/Libs.v) of _collect_required_libraries and of the emitter's include flags and global object definitions; the model is run against the real functions on every multiplicity 0..3 of {Servo, parallel LCD, I2C LCD} x other devices x permitted and non-permitted positions, and every emitted sketch inside the quantifier is compiled and linked.",
+    "technique": "Coq proof (structural induction over the nested IR skeleton: deep walk of _collect_required_libraries vs. the emitter's top-level scans; text model of the emitted object definitions / initialisation lines with injectivity of the generated identifiers; invariant proof that the emitter's name -> display-object resolution is the latest-binding semantics) + class->header / declaration->library tables regenerated from emitter.py and __init__.py by a fail-closed translator and pinned by a theorem + extracted-model correspondence with the real parse/_collect_required_libraries/emit (library lists, #include lines, every library-object line of the global section, the initialisation lines of setup(), the receiver object of every emitted LCD command) on exhaustively enumerated device multiplicities / positions / binding-and-command sequences and seeded random declarations + property oracle on lib list / #include lines / global object definitions / g++ link against the mock library headers",
+    "level_text": "Theorems C14_* (coq/Props/C14.v) hold for all programs of a Gallina model (coq/Tool/Libs.v, coq/Tool/LibObjs.v) of _collect_required_libraries, of the emitter's include flags, of the text of its Servo / LiquidCrystal / LiquidCrystal_I2C object definitions and initialisation calls (constructor arguments, cols/rows, backlight pin) and of its name -> current display object resolution; the model is run against the real functions on every multiplicity 0..3 of {Servo, parallel LCD, I2C LCD} x other devices x permitted and non-permitted positions, on binding/command sequences and on random declarations with varied arguments, and sketches inside the quantifier are compiled and linked.",
     "level_note": "Trusted: Coq kernel, extraction, OCaml driver, the skeleton walker in harness/impl/c14_impl.py, the regexes that read #include lines and object definitions from the emitted text, g++ and the mock library headers. The theorems are about the model; the correspondence bounds its distance from __init__.py / emitter.py.",
     "design_ref": "DESIGN.md section 4 C14",
 }
@@ -328,8 +329,468 @@ def gen_cases(tier, rng):
         rng.shuffle(rest_out)
         keep_out += rest_out[:12]
         cases, out = keep, keep_out
-    return cases + out
+    return cases + out + gen_object_cases(tier, rng) + gen_decoy_cases(tier, rng)
 
+
+
+# ---------------------------------------------------------------- growth round: object text and receiver resolution
+OBJ_IMPORTS = """from Reduino import target
+from Reduino.Actuators import Servo
+from Reduino.Actuators import Led
+from Reduino.Displays import LCD
+from Reduino.Core import analog_read
+from Reduino.Utils import sleep
+target("COM3")
+"""
+GEOMS = [(16, 2), (20, 4), (8, 1), (40, 2), (16, 4), ("4 * 4", "1 + 1"), ("2 - 1", 1), (1, "3 - 2")]
+MIN_PULSES = ["544", "600", "600.5", "599.5", "0.4", "1000.25", "-0.5", "700.0"]
+MAX_PULSES = ["2400", "2300", "2300.0", "2399.5", "2500.75"]
+CMD_FORMS = ['{n}.write(0, {r}, "w{k}")', '{n}.line({r}, "l{k}")', "{n}.clear()", "{n}.progress(0, {k}, 10)"]
+
+
+def lcd_ctor(rng, kind, bl_pool):
+    """one LCD constructor call (argument text) of the given interface with randomly chosen spelling and arguments"""
+    cols, rows = rng.choice(GEOMS)
+    geom = rng.choice(["", "kw", "kw", "pos"])
+    if kind == "I":
+        addr = rng.choice(["0x27", "0x3F", "38", "av", "0x20", "0", "0x00", "0x27 - 39", "1 - 1"])
+        args = [f"i2c_addr={addr}"]
+        if geom:
+            args += [f"cols={cols}", f"rows={rows}"]
+        if rng.random() < 0.2 and bl_pool:
+            args.append(f"backlight_pin={bl_pool.pop()}")
+        rng.shuffle(args)
+        return ", ".join(args)
+    pins = rng.sample(range(22, 44), 7)
+    pin_txt = [str(x) for x in pins[:6]]
+    if rng.random() < 0.2:
+        pin_txt[rng.randrange(6)] = rng.choice(["0", "0x0", "2 - 2"])        # falsy-looking pin values
+    if rng.random() < 0.2:
+        pin_txt[rng.randrange(6)] = "pv"
+    if rng.random() < 0.5:
+        args = list(pin_txt)
+        if geom == "pos":
+            args += [str(cols), str(rows)]
+        elif geom:
+            args += [f"cols={cols}", f"rows={rows}"]
+    else:
+        args = [f"{k}={v}" for k, v in zip(("rs", "en", "d4", "d5", "d6", "d7"), pin_txt)]
+        rng.shuffle(args)
+        if geom:
+            args += [f"rows={rows}", f"cols={cols}"]
+    if rng.random() < 0.35:
+        args.append(f"rw={pins[6]}")
+    if rng.random() < 0.4 and bl_pool:
+        args.append(f"backlight_pin={bl_pool.pop()}")
+    return ", ".join(args)
+
+
+def servo_ctor(rng, pin):
+    form = rng.randrange(4)
+    if form == 0:
+        return f"{pin}"
+    if form == 1:
+        return f"pin={pin}, min_angle=0, max_angle=170"
+    mn, mx = rng.choice(MIN_PULSES), rng.choice(MAX_PULSES)
+    if form == 2:
+        return f"{pin}, min_pulse_us={mn}, max_pulse_us={mx}"
+    return f"max_pulse_us={mx}, pin={pin}, min_pulse_us={mn}"
+
+
+def script_objects(rng, size, blocks=True):
+    """random declarations (Servo / parallel LCD / I2C LCD with varied constructor arguments; LCD names re-bound)
+    interleaved with one-line LCD commands (top level and inside if/for/try/while bodies) before the main loop,
+    commands in the loop body and in a function.  -> (source, declared libraries)"""
+    lines = [OBJ_IMPORTS.rstrip("\n"), "sleep(7)", 'pv = analog_read("A0")', 'av = analog_read("A1")', "kk = 0"]
+    declared = set()
+    kinds = {}
+    lcd_vars = rng.sample(["a", "b", "c"], rng.choice([1, 2, 2, 3]))
+    bound, servos = [], []
+    bl_pool = [44, 45, 46, 47, 48]
+    rng.shuffle(bl_pool)
+    servo_pins = ["9", "10", "6", "5", "pv"]
+    k = 0
+
+    def cmd(n):
+        nonlocal k
+        k += 1
+        return rng.choice(CMD_FORMS).format(n=n, r=k % 2, k=k)
+
+    for _ in range(size):
+        u = rng.random()
+        if u < 0.3 or not bound:
+            n = rng.choice(lcd_vars)
+            kind = rng.choice("PI")
+            lines.append(f"{n} = LCD({lcd_ctor(rng, kind, bl_pool)})")
+            declared.add(KIND_LIB[kind])
+            kinds.setdefault(n, set()).add(kind)
+            if n not in bound:
+                bound.append(n)
+        elif u < 0.42 and len(servos) < 3:
+            n = f"s{len(servos)}"
+            servos.append(n)
+            lines.append(f"{n} = Servo({servo_ctor(rng, servo_pins[len(servos) - 1])})")
+            declared.add("Servo")
+        elif u < 0.8 or not blocks:
+            lines.append(cmd(rng.choice(bound)))
+        else:
+            body = [cmd(rng.choice(bound)) for _ in range(rng.choice([1, 2]))]
+            form = rng.choice([0, 1, 2, 4])      # (3: try/except - the emitted `catch (Exception &)` does not compile: C06's business)
+            if form == 0:
+                lines += ["if pv > 1:"] + ind(body)
+            elif form == 1:
+                lines += ["if pv > 900:"] + ind(body[:1]) + ["else:"] + ind([cmd(rng.choice(bound))])
+            elif form == 2:
+                lines += ["for j in range(2):"] + ind(body)
+            elif form == 3:
+                lines += ["try:"] + ind(body) + ["except Exception:"] + ind([cmd(rng.choice(bound))])
+            else:
+                lines += ["while kk < 2:"] + ind(body + ["kk = kk + 1"])
+    has_fn = bool(bound) and rng.random() < 0.4
+    if has_fn:
+        lines += ["def show():"] + ind([cmd(rng.choice(bound)) for _ in range(rng.choice([1, 2]))])
+    loop = []
+    has_loop = rng.random() < 0.85
+    if has_loop and rng.random() < 0.3 and len(servos) < 3:
+        loop.append(f"s{len(servos)} = Servo({servo_ctor(rng, servo_pins[len(servos)])})")
+        servos.append(f"s{len(servos)}")
+        declared.add("Servo")
+    loop += [cmd(n) for n in bound if rng.random() < 0.8]
+    if bound and rng.random() < 0.4:
+        loop += ["if pv > 3:"] + ind([cmd(rng.choice(bound))])
+    if has_fn:
+        loop.append("show()")
+    loop += [f"{s}.write(90)" for s in servos[:1]] + ["sleep(20)"]
+    if has_loop:
+        lines += ["while True:"] + ind(loop)
+    return "\n".join(lines) + "\n", declared, any(len(x) == 2 for x in kinds.values())
+
+
+RES_ALPHABET = ["Da:P", "Da:I", "Db:P", "Ca", "Cb", "If:Ca", "For:Cb"]
+
+
+def script_resolution(seq, with_fn):
+    """exhaustive family for the receiver resolution: seq over RES_ALPHABET (declarations of a / b, commands on them at
+    the top level or inside a block); the loop body and (with_fn) a function use both variables"""
+    lines = [OBJ_IMPORTS.rstrip("\n"), 'pv = analog_read("A0")']
+    bound, declared, kinds = [], set(), {}
+    for k, t in enumerate(seq):
+        if t[0] == "D":
+            n, kind = t[1], t[3]
+            kinds.setdefault(n, set()).add(kind)
+            args = LCD_ARGS[kind][k % 3]
+            lines.append(f"{n} = LCD({args})")
+            declared.add(KIND_LIB[kind])
+            if n not in bound:
+                bound.append(n)
+        elif t[0] == "C":
+            lines.append(f'{t[1]}.write(0, 0, "t{k}")')
+        elif t.startswith("If:"):
+            lines += ["if pv > 1:", f'    {t[4]}.line(1, "i{k}")']
+        else:
+            lines += ["for j in range(2):", f"    {t[5]}.clear()"]
+    if with_fn:
+        lines += ["def show():"] + ind([f'{n}.write(0, 1, "f")' for n in bound])
+    lines += ["while True:"] + ind([f'{n}.line(0, "L")' for n in bound] + (["show()"] if with_fn else []) + ["sleep(20)"])
+    return "\n".join(lines) + "\n", declared, any(len(x) == 2 for x in kinds.values())
+
+
+def resolution_sequences(tier, rng):
+    import itertools
+    out = []
+
+    def valid(q):
+        bound = set()
+        for t in q:
+            if t[0] == "D":
+                bound.add(t[1])
+            elif t[-1] not in bound:
+                return False
+        return True
+    for n in (1, 2, 3, 4):
+        seqs = [list(q) for q in itertools.product(RES_ALPHABET, repeat=n) if valid(q)]
+        if tier != "thorough" and n == 4:
+            rng.shuffle(seqs)
+            seqs = seqs[:40]
+        out += seqs
+    extra = 400 if tier == "thorough" else 30
+    for _ in range(extra):
+        n = rng.choice([5, 6, 7])
+        while True:
+            q = [rng.choice(RES_ALPHABET) for _ in range(n)]
+            if valid(q):
+                break
+        out.append(q)
+    return out
+
+
+def gen_object_cases(tier, rng):
+    cases = []
+    n_rand = 600 if tier == "thorough" else 90
+    for k in range(n_rand):
+        src, declared, mix = script_objects(rng, rng.choice([2, 3, 4, 6, 8, 10]), blocks=(k % 4 != 0))
+        cases.append({"src": src, "cat": "in", "kind": "in:objects:random", "declared": declared, "rebind_mixed": mix, "nocompile": (k % 2 == 0) if tier == "thorough" else (k % 4 != 1),
+                      "meta": {"family": "objects", "k": k}})
+    for k, seq in enumerate(resolution_sequences(tier, rng)):
+        src, declared, mix = script_resolution(seq, with_fn=(k % 3 == 0))
+        cases.append({"src": src, "cat": "in", "kind": "in:objects:resolution", "declared": declared, "rebind_mixed": mix, "nocompile": (k % 4 != 0) if tier == "thorough" else (k % 8 != 0),
+                      "meta": {"family": "resolution", "seq": seq}})
+    return cases
+
+
+
+# ---------------------------------------------------------------- decoys and falsy-looking values
+# ordinary values whose TEXT mentions a library class (a string shown to the user, a variable, an LED or a motor whose
+# identifier ends in the class name): they need no library.  (name, declaration lines, lines for the loop body)
+DECOYS = [
+    ("str-servo", ['title = "Servo tester v2"'], []),
+    ("str-lcd", ['banner = "no LiquidCrystal attached"'], []),
+    ("str-i2c", ['note = "LiquidCrystal_I2C backpack at 0x27"'], []),
+    ("str-include", ['hint = "#include <Servo.h>"'], []),
+    ("var-servo", ["panServo = 90"], ["panServo = panServo + 1"]),
+    ("var-lcd", ["rowsLiquidCrystal = 2"], ["rowsLiquidCrystal = rowsLiquidCrystal + 1"]),
+    ("var-i2c", ["addrLiquidCrystal_I2C = 39"], ["addrLiquidCrystal_I2C = addrLiquidCrystal_I2C + 1"]),
+    ("var-exact-servo", ["Servo_ = 1", "LiquidCrystal_ = 2"], ["Servo_ = Servo_ + LiquidCrystal_"]),
+    ("led-servo", ["statusServo = Led(13)"], ["statusServo.toggle()"]),
+    ("led-lcd", ["myLiquidCrystal = Led(12)"], ["myLiquidCrystal.toggle()"]),
+    ("led-i2c", ["okLiquidCrystal_I2C = Led(2)"], ["okLiquidCrystal_I2C.on()"]),
+    ("motor-servo", ["driveServo = DCMotor(4, 7, 3)"], ["driveServo.stop()"]),
+    ("buzzer-lcd", ["beepLiquidCrystal = Buzzer(8)"], ["beepLiquidCrystal.beep()"]),
+]
+REAL = {"S": ["arm = Servo(9)"], "P": ["lcdp = LCD(rs=12, en=11, d4=5, d5=4, d6=3, d7=2)"], "I": ["lcdi = LCD(i2c_addr=0x27)"]}
+REAL_USE = {"S": ["arm.write(10)"], "P": ['lcdp.line(0, "p")'], "I": ['lcdi.line(1, "i")']}
+
+
+def script_decoy(decoys, real, decoy_first):
+    lines = [IMPORTS.rstrip("\n")]
+    dl = [l for _, d, _ in decoys for l in d]
+    rl = [l for g in real for l in REAL[g]]
+    lines += (dl + rl) if decoy_first else (rl + dl)
+    body = [l for _, _, u in decoys for l in u] + [l for g in real for l in REAL_USE[g]] + ["sleep(20)"]
+    lines += ["while True:"] + ind(body)
+    return "\n".join(lines) + "\n"
+
+
+# constructor values that are falsy in Python although they denote a device: bus address 0, pin 0, ...
+ZERO_LCDS = ["z = LCD(i2c_addr=0)", "z = LCD(i2c_addr=0x00, cols=20, rows=4)", "z = LCD(i2c_addr=0x27 - 39)", "z = LCD(cols=16, rows=2, i2c_addr=1 - 1)",
+             "z = LCD(i2c_addr=0, backlight_pin=0)", "z = LCD(0, 1, 2, 3, 4, 5)", "z = LCD(rs=0, en=0, d4=0, d5=0, d6=0, d7=0)",
+             "z = LCD(rs=7, en=0, d4=5, d5=4, d6=3, d7=2, rw=0, backlight_pin=0)", "z = LCD(12, 11, 5, 4, 3, 2, cols=0, rows=0)",
+             "z = LCD(i2c_addr=0, cols=0, rows=0)", "z = LCD(12, 11, 5, 4, 3, 2, 2 - 1, 1)"]
+ZERO_SERVOS = ["zs = Servo(0)", "zs = Servo(pin=0, min_angle=0, max_angle=1)", "zs = Servo(0, min_pulse_us=0, max_pulse_us=1)", "zs = Servo(9, min_pulse_us=0.0, max_pulse_us=0.4)"]
+
+
+def script_zero(lcd, servo, extra, servo_in_loop):
+    lines = [IMPORTS.rstrip("\n")]
+    declared = set()
+    for g in extra:
+        lines += REAL[g]
+        declared.add(KIND_LIB[g])
+    if lcd is not None:
+        lines.append(lcd)
+        declared.add("LiquidCrystal_I2C" if "i2c_addr" in lcd else "LiquidCrystal")
+        lines.append('z.line(0, "z")')
+    body = []
+    if servo is not None:
+        declared.add("Servo")
+        if servo_in_loop:
+            body.append(servo)
+        else:
+            lines.append(servo)
+        body.append("zs.write(10)")
+    lines += ["while True:"] + ind(body + [l for g in extra for l in REAL_USE[g]] + ["sleep(20)"])
+    return "\n".join(lines) + "\n", declared
+
+
+def gen_decoy_cases(tier, rng):
+    import itertools
+    cases = []
+    reals = ["", "S", "P", "I", "SP", "SI", "PI", "SPI"]
+    k = 0
+    for d in DECOYS:
+        for real in reals:
+            if tier != "thorough" and real not in ("", "S", "P", "I") and (k % 3):
+                k += 1
+                continue
+            k += 1
+            cases.append({"src": script_decoy([d], real, decoy_first=bool(k % 2)), "cat": "in", "kind": "in:decoy:" + d[0].split("-")[0],
+                          "declared": {KIND_LIB[g] for g in real}, "nocompile": tier != "thorough" and bool(k % 4),
+                          "meta": {"family": "decoy", "decoy": d[0], "real": real}})
+    for n in range(24 if tier != "thorough" else 200):
+        ds = rng.sample(DECOYS, rng.choice([2, 3, 4]))
+        real = rng.choice(reals)
+        cases.append({"src": script_decoy(ds, real, decoy_first=bool(n % 2)), "cat": "in", "kind": "in:decoy:mixed",
+                      "declared": {KIND_LIB[g] for g in real}, "nocompile": tier != "thorough" and bool(n % 4),
+                      "meta": {"family": "decoy", "decoy": [d[0] for d in ds], "real": real}})
+    n = 0
+    for lcd in ZERO_LCDS + [None]:
+        for servo in [None] + ZERO_SERVOS:
+            if lcd is None and servo is None:
+                continue
+            n += 1
+            if tier != "thorough" and lcd is not None and servo is not None and n % 3:
+                continue
+            extra = ["", "I", "P", "S"][n % 4]
+            if servo is not None:
+                extra = extra.replace("S", "")
+            src, declared = script_zero(lcd, servo, extra, servo_in_loop=bool(n % 2))
+            cases.append({"src": src, "cat": "in", "kind": "in:zero-valued-arguments", "declared": declared, "nocompile": tier != "thorough" and bool(n % 3),
+                          "meta": {"family": "zero", "lcd": lcd, "servo": servo, "extra": extra}})
+    return cases
+
+
+def fix_items(x):
+    if isinstance(x, dict):
+        return Fraction(x["frac"][0], x["frac"][1])
+    if isinstance(x, list):
+        return [fix_items(y) for y in x]
+    return x
+
+
+GLOBAL_LINE_RE = re.compile(r"^(?:(?:Servo|LiquidCrystal|LiquidCrystal_I2C)[ \t]|(?:const int|int|bool) __redu_lcd\d*_(?:cols|rows|brightness|backlight_state)_)")
+LIB_INCLUDE_RE = re.compile(r"^#include <(?:Servo\.h|LiquidCrystal\.h|Wire\.h|LiquidCrystal_I2C\.h)>$")
+SERVO_INIT_RE = re.compile(r"^\s*__servo_\w+\.(?:attach|writeMicroseconds)\(")
+
+
+def body_of(cpp, start):
+    """the lines of the function body that starts with the line `start` (up to the closing brace in column 0)"""
+    i = cpp.find("\n" + start + "\n")
+    if i < 0:
+        return None, -1
+    out = []
+    for line in cpp[i + len(start) + 2:].split("\n"):
+        if line == "}":
+            return out, i
+        out.append(line)
+    return None, i
+
+
+def item_names(items):
+    """(LCD variable names, rendered backlight-pin expressions) mentioned in the item encoding"""
+    names, bls = set(), set()
+
+    def walk(x):
+        if isinstance(x, list) and x and isinstance(x[0], int) and not isinstance(x[0], bool):
+            if x[0] == 1 and len(x) == 14:
+                names.add(x[1])
+                bl = x[12]
+                if bl:
+                    bls.add(str(bl[1]))
+                return
+            if x[0] == 9 and len(x) == 2 and isinstance(x[1], str):
+                names.add(x[1])
+                return
+        if isinstance(x, list):
+            for y in x:
+                walk(y)
+    walk(items)
+    return names, bls
+
+
+def read_objects(cpp, items):
+    """library-object lines of the emitted sketch: global definition lines, the initialisation + command lines of
+    setup(), the command lines of loop() and of the function bodies (None when the sketch has an unexpected shape)"""
+    setup, i_setup = body_of(cpp, "void setup() {")
+    loop, _ = body_of(cpp, "void loop() {")
+    if setup is None or loop is None:
+        return None
+    head = cpp[:i_setup].split("\n")
+    names, bls = item_names(items)
+    if names:
+        ident = re.compile(r"__redu_lcd(\d*)_(?:(cols|rows|brightness|backlight_state)_)?(%s)\b" % "|".join(sorted(map(re.escape, names), key=len, reverse=True)))
+    else:
+        ident = re.compile(r"(?!x)x")
+    blre = re.compile(r"^\s*pinMode\((?:%s), OUTPUT\);" % "|".join(map(re.escape, sorted(bls)))) if bls else re.compile(r"(?!x)x")
+
+    def relevant(l):
+        return bool(ident.search(l) or SERVO_INIT_RE.match(l) or blre.match(l))
+
+    def receiver(l):
+        obj = cols = None
+        for m in ident.finditer(l):
+            if m.group(2) is None and obj is None:
+                obj = m.group(0)
+            if m.group(2) == "cols" and cols is None:
+                cols = m.group(0)
+        return [obj, cols]
+    return {"globals": [l for l in head if GLOBAL_LINE_RE.match(l)],
+            "head": [l for l in head if GLOBAL_LINE_RE.match(l) or LIB_INCLUDE_RE.match(l)],
+            "setup": [l for l in setup if relevant(l)],
+            "loop": [receiver(l) for l in loop if ident.search(l)],
+            "functions": [receiver(l) for l in head if l.startswith(" ") and ident.search(l)],
+            "receiver": receiver}
+
+
+def same_receivers(model, real):
+    """model: [[object, cols_var], ...]; real: [[object, cols_var or None], ...] (a `.clear();` line has no cols variable)"""
+    if len(model) != len(real):
+        return False
+    return all(m[0] == r[0] and (r[1] is None or m[1] == r[1]) for m, r in zip(model, real))
+
+
+def wrecvs(v):
+    return [[C.wstr(x[0]), C.wstr(x[1])] for x in v]
+
+
+def object_correspondence(ctx, c, r, m, incs, dist):
+    """model (coq/Tool/LibObjs.v through coq/Wire/C14W.v case 1) vs the emitted text"""
+    case_rep = {"script": c["src"], "items": r["items"]}
+    if m[0] != 0:
+        ctx.disagree("object model could not decode the items", case_rep, m, None)
+        return False
+    real = read_objects(r["cpp"], r["items"])
+    if real is None:
+        ctx.disagree("emitted sketch has no setup()/loop() of the expected shape", case_rep, None, r["cpp"][-400:])
+        return False
+    g, init = [C.wstr(x) for x in m[1]], [C.wstr(x) for x in m[2]]
+    rs, rl, rf = wrecvs(m[3]), wrecvs(m[4]), [wrecvs(f) for f in m[5]]
+    spec_s, spec_l, at_top, follow = wrecvs(m[6]), wrecvs(m[7]), m[8], m[9]
+    hdr = [HEADERS[j] for j in m[10]]
+    ok = True
+    if g != real["globals"]:
+        ok = False
+        ctx.disagree("library object definitions (global lines with constructor arguments): model vs emit", case_rep, g, real["globals"])
+    if real["setup"][:len(init)] != init:
+        ok = False
+        ctx.disagree("initialisation lines of the library objects in setup(): model vs emit", case_rep, init, real["setup"][:len(init) + 2])
+    sketch = [C.wstr(x) for x in m[12]]
+    real_sketch = real["head"] + ["void setup() {"] + real["setup"][:len(init)]
+    if sketch != real_sketch:
+        ok = False
+        ctx.disagree("order of the library lines of the sketch (#include lines, object definitions, void setup() {, initialisation): model vs emit", case_rep, sketch, real_sketch)
+    real_rs = [real["receiver"](l) for l in real["setup"][len(init):]]
+    if not same_receivers(rs, real_rs):
+        ok = False
+        ctx.disagree("display object addressed by the LCD commands of setup(): model vs emit", case_rep, rs, real_rs)
+    if not same_receivers(rl, real["loop"]):
+        ok = False
+        ctx.disagree("display object addressed by the LCD commands of loop(): model vs emit", case_rep, rl, real["loop"])
+    flat = [x for f in rf for x in f]
+    if not same_receivers(flat, real["functions"]):
+        ok = False
+        ctx.disagree("display object addressed by the LCD commands of the function bodies: model vs emit", case_rep, flat, real["functions"])
+    if hdr != [h for h in incs if h in HEADERS]:
+        ok = False
+        ctx.disagree("#include lines: model on the erased items vs emit", case_rep, hdr, incs)
+    dist["objects:lcds_at_top:" + str(at_top)] += 1
+    if c["cat"] == "in" and follow != 1:
+        ok = False
+        ctx.disagree("the IR of a script inside the quantifier holds an LCD command before the first top-level declaration of its variable (assumed not to be produced by the parser: guard cmds_follow_decl)", case_rep, None, None)
+    if c["cat"] == "in" and at_top != 1:
+        ok = False
+        ctx.disagree("a script inside the quantifier is parsed to an IR outside the guard lcds_at_top of C14_resolution_is_latest_binding", case_rep, None, None)
+    if at_top == 1 and follow == 1:
+        # inside the guard of C14_resolution_is_latest_binding the emitted receivers are the reference semantics
+        if not same_receivers(spec_s, real_rs) or not same_receivers(spec_l, real["loop"]):
+            ok = False
+            ctx.disagree("a command does not address the display of the latest declaration of its variable that precedes it", case_rep,
+                         {"setup": spec_s, "loop": spec_l}, {"setup": real_rs, "loop": real["loop"]})
+        dist["objects:inside_resolution_guard"] += 1
+    dist["objects:global_lines"] += len(g)
+    dist["objects:init_lines"] += len(init)
+    dist["objects:command_receivers"] += len(rs) + len(rl) + len(flat)
+    if len({x[0] for x in rs + rl + flat}) > 1:
+        dist["objects:scripts_addressing_several_displays"] += 1
+    return ok
 
 # ---------------------------------------------------------------- reading the emitted text
 INC_RE = re.compile(r'^[ \t]*#[ \t]*include[ \t]*[<"]([^>"]+)[>"]', re.M)
@@ -470,16 +931,19 @@ def run(ctx: C.Ctx):
     n_eval = 0
 
     # ---- compile + link every sketch inside the quantifier
-    in_idx = [k for k, (c, r) in enumerate(zip(cases, res)) if c["cat"] == "in" and r.get("ok")]
+    in_idx = [k for k, (c, r) in enumerate(zip(cases, res)) if c["cat"] == "in" and r.get("ok") and not c.get("nocompile")]
     comp = fw.run_sketches([{"cpp": res[k]["cpp"], "compile_only": True} for k in in_idx])
     compiled = dict(zip(in_idx, comp))
 
     # ---- model
     ok_idx = [k for k, r in enumerate(res) if r.get("ok")]
-    model = {}
+    model, obj_model = {}, {}
     if ctx.exe:
         outs = ctx.model([[0] + res[k]["skeleton"] for k in ok_idx])
         model = dict(zip(ok_idx, outs))
+        obj_idx = [k for k in ok_idx if not res[k].get("items_unsupported")]
+        outs = ctx.model([[1] + fix_items(res[k]["items"]) for k in obj_idx])
+        obj_model = dict(zip(obj_idx, outs))
 
     nested_seen = Counter()
 
@@ -540,6 +1004,14 @@ def run(ctx: C.Ctx):
                 nested_seen["guard_false" if m_guard == 0 else "guard_true"] += 1
             if m_req or m_hdr:
                 nontrivial.add(json.dumps(r["skeleton"]))
+        mo = obj_model.get(k)
+        if mo is not None:
+            n_eval += 1
+            dist["objects:compared"] += 1
+            if object_correspondence(ctx, c, r, mo, incs, dist):
+                nontrivial.add(json.dumps(r["items"]))
+        elif r.get("items_unsupported"):
+            dist["objects:skipped (command kinds outside the item model)"] += 1
         # ---------- property oracle (inside the quantifier only)
         if c["cat"] == "in" and c.get("rebind_mixed") and "F-C14-lcd-rebind" in regressed:
             # the repaired defect is back and already reported with its witness as replay: scripts of the same
@@ -567,26 +1039,33 @@ def run(ctx: C.Ctx):
     ctx.coverage.update({
         "evaluations": n_eval,
         "distinct_nontrivial": len(nontrivial),
-        "rule": "scripts enumerated exhaustively: multiplicities 0..3 of Servo x parallel LCD x I2C LCD, other devices present/absent, servo placement before the loop / top of the loop body / split, with and without a main loop, declaration order rotating over 4 orders; same-name re-declarations; an LCD variable bound to one and then to the other interface (the witness shapes of the repaired finding F-C14-lcd-rebind, with further LCDs / a Servo around) and every sequence of 2..4 bindings of the variables a, b to parallel / I2C displays that binds some variable again (thorough: all 164; quick: all of length 2, half of length 3, 8 seeded of length 4), constructor spellings, other devices, Servo and main loop rotating - all inside the quantifier, judged by the oracle and compiled; step 0 replays the witnesses of the repaired findings first; outside the quantifier (correspondence only): each kind nested in if/elif/else/while/for/try/except/function/2-deep in setup and in the loop, LCDs in the loop body, servos in the loop body after other statements, declarations after the loop. quick = stratified seeded subsample. distinct non-trivial = distinct IR skeletons for which at least one library is requested or included",
+        "rule": "scripts enumerated exhaustively: multiplicities 0..3 of Servo x parallel LCD x I2C LCD, other devices present/absent, servo placement before the loop / top of the loop body / split, with and without a main loop, declaration order rotating over 4 orders; same-name re-declarations; an LCD variable bound to one and then to the other interface (the witness shapes of the repaired finding F-C14-lcd-rebind, with further LCDs / a Servo around) and every sequence of 2..4 bindings of the variables a, b to parallel / I2C displays that binds some variable again (thorough: all 164; quick: all of length 2, half of length 3, 8 seeded of length 4), constructor spellings, other devices, Servo and main loop rotating - all inside the quantifier, judged by the oracle and compiled; step 0 replays the witnesses of the repaired findings first; outside the quantifier (correspondence only): each kind nested in if/elif/else/while/for/try/except/function/2-deep in setup and in the loop, LCDs in the loop body, servos in the loop body after other statements, declarations after the loop. quick = stratified seeded subsample. Growth round: (objects:random) seeded random scripts of 2..10 steps - Servo / parallel / I2C LCD declarations with randomly chosen constructor spellings and arguments (positional / keyword / shuffled, rw, backlight pins, five geometries and folding expressions, run-time expressions as pin or address, float pulse bounds with halves and a negative one, zero-valued arguments), LCD variables a/b/c re-bound, one-line LCD commands (write/line/clear/progress) at the top level and inside if/else/for/while bodies, in the loop body and in a function; (objects:resolution) every valid sequence of length 1..3 (quick: plus 40 of length 4 and 30 longer; thorough: all of length 4 and 400 longer) over {declare a parallel, declare a I2C, declare b parallel, command on a, command on b, if-body command on a, for-body command on b}; (decoy) strings / variables / Led / DCMotor / Buzzer identifiers whose text contains Servo, LiquidCrystal, LiquidCrystal_I2C or an #include line, with every subset of real devices; (zero-valued-arguments) bus address 0 / 0x00 / constant expressions folding to 0, pin 0, rw=0, backlight_pin=0, cols/rows 0, Servo(0), zero pulse bounds. For every accepted script whose IR holds only one-line LCD commands the extracted object model is compared with the emitted text: global library-object lines (exact list), initialisation lines of setup() (exact prefix of the library-object lines of setup()), receiver object and cols variable of every command line of setup(), loop() and the function bodies; inside the guard of C14_resolution_is_latest_binding the receivers are also compared with the reference semantics. distinct non-trivial = distinct IR skeletons for which at least one library is requested or included, plus distinct argument-carrying item trees whose object comparison ran",
         "samples": [cases[0]["src"], cases[len(cases) // 3]["src"], cases[-1]["src"]],
         "distribution": dict(dist, scripts=len(cases), inside_quantifier=n_in, compiled_and_linked=sum(1 for v in compiled.values() if v["compiled"]),
                              outside_quantifier_guard=dict(nested_seen),
                              outside_quantifier_relation_observed={k: dict(v) for k, v in sorted(observed.items())}),
         "exhaustive": ctx.tier == "thorough",
-        "guard": "the property's quantifier only: LCDs declared before the main loop (top level), servos before it or at the top of its body. No finding of this property is open: the region F-C14-lcd-rebind used to exclude (an LCD variable bound to both interfaces) is generated and judged. Model guard decls_at_documented_positions (extracted) is evaluated on the real IR of every script and must be true inside the quantifier.",
+        "guard": "the property's quantifier only: LCDs declared before the main loop (top level), servos before it or at the top of its body. No finding of this property is open: the region F-C14-lcd-rebind used to exclude (an LCD variable bound to both interfaces) is generated and judged. Model guard decls_at_documented_positions (extracted) is evaluated on the real IR of every script and must be true inside the quantifier; so must the guards lcds_at_top and cmds_follow_decl of C14_resolution_is_latest_binding (both on every script inside the quantifier).",
         "fixed_findings_replayed": sorted(f["id"] for f in local_findings(ctx) if f.get("kind") == "fixed"),
         "regressed": sorted(regressed),
-        "unmodelled": ["the text of the object definitions beyond class, variable name and binding index (constructor arguments)",
-                       "which display object the commands after a re-binding address (the emitter switches to the object of the declaration it passes: observed by hand on the mock, not part of this property)",
+        "unmodelled": ["the servo calibration globals (float __servo_min_angle_<n> = static_cast<float>(0.0); ... - their text needs Python's repr of floats); the object line, attach and writeMicroseconds lines of a servo are modelled",
+                       "the argument text of the LCD command lines beyond receiver object and cols variable; LCD commands that emit several lines (message, display, backlight, brightness, glyph, animate, tick) - scripts holding them skip the object comparison (counted)",
+                       "which display a function body addresses when the function is called between two bindings of the variable (the emitter uses the latest binding of the whole script: modelled as is, C14_resolution_is_latest_binding states exactly that; Python's run-time answer may differ - not part of this property)",
+                       "a servo variable bound twice is attached once, with the arguments of its first declaration (theorem C14_servo_rebind_first_wins_remark; not part of this property)",
                        "PlatformIO's library resolution itself (the check stops at the lib_deps section text)",
                        "real Arduino library headers (mock headers: LiquidCrystal_I2C.h includes LiquidCrystal.h and does not need Wire.h, so those two omissions are visible only textually)",
                        "IR shapes the parser cannot produce (LCDDecl.interface other than parallel/i2c; declarations inside global_decls) - flagged as unencodable if they appear"],
         "trusted_base": C.COMMON_TRUSTED + ["harness/impl/c14_impl.py (walks the real Program dataclasses into the model's node encoding; calls parse, _collect_required_libraries, emit, pio._format_lib_section)",
                                             "harness/props/c14.py regexes INC_RE / OBJ_RE / LCD_ID_RE reading #include lines, global object definitions and the binding index in an LCD object identifier",
+                                            "harness/props/c14.py read_objects (GLOBAL_LINE_RE, SERVO_INIT_RE, the per-script identifier regex built from the LCD variable names and backlight pins of the IR) splitting the emitted sketch into global lines / setup() / loop() / function bodies",
+                                            "harness/impl/c14_impl.py Items (walks the real Program dataclasses into the argument-carrying item encoding of coq/Wire/C14W.v case 1)",
+                                            "harness/gen/c14_libs.py (ast walk of emit() and _collect_required_libraries printing coq/Gen/LibTable.v; an unrecognised shape prints a sentinel row that C14_tables_are_the_models rejects)",
                                             "g++ -std=gnu++17 and mock/ (Servo.h, LiquidCrystal.h, LiquidCrystal_I2C.h, Wire.h)"],
     })
     ctx.assumptions += ["variable names are distinct per declared device unless a case says otherwise (names are numbered by first occurrence in the IR walk)",
-                        "the parser produces LCDDecl.interface in {parallel, i2c} only (checked on every case)"]
+                        "the parser produces LCDDecl.interface in {parallel, i2c} only (checked on every case)",
+                        "no user global line coincides textually with a library-object line (the emitter de-duplicates globals_ by line text; the model de-duplicates among the library-object lines only)",
+                        "the parser drops an LCD command that precedes the first declaration of its variable (guard cmds_follow_decl of C14_resolution_is_latest_binding; evaluated by the extracted model on every real IR and counted)"]
 
 
 def replay(data):
